@@ -718,6 +718,47 @@ def _worker(args):
     return out
 
 
+def _collection_routes(ctx):
+    """collections the way the LIBRARY builds them — MazeDatasetCollection.generate(cfg) from member configs, and collections that
+    were themselves loaded — saved and read back (memory and file), twice in a row, under thresholds that put some members in a
+    minimal format. Oracle: member by member the same mazes; the reported count equals the length."""
+    from maze_dataset import MazeDatasetConfig
+    from maze_dataset.dataset.collected_dataset import MazeDatasetCollection, MazeDatasetCollectionConfig
+    def fp(coll):
+        return [[(_bits(m.connection_list), [[int(a) for a in c] for c in m.solution]) for m in d.mazes] for d in coll.maze_datasets]
+    plans = [((5, 2), 3), ((4, 0, 3), 2), ((100, 2), "default"), ((3, 3), None)] if ctx.tier == "quick" else \
+            [((5, 2), 3), ((4, 0, 3), 2), ((100, 2), "default"), ((3, 3), None), ((120, 101), "default"), ((1, 1, 1), 1), ((0, 6), 6)]
+    for lens, thr in plans:
+        cfgs = [MazeDatasetConfig(name=f"gm{k}", grid_n=2 + k % 2, n_mazes=n, seed=11 + k) for k, n in enumerate(lens)]
+        case = dict(collection_route=True, member_counts=list(lens), threshold=thr)
+        import contextlib
+        ctxm = contextlib.nullcontext() if thr == "default" else Thr(thr)
+        with ctxm:
+            try:
+                coll = MazeDatasetCollection.generate(MazeDatasetCollectionConfig(name="gen", maze_dataset_configs=cfgs), gen_parallel=False)
+            except Exception as e:
+                ctx.violate(f"MazeDatasetCollection.generate raised {type(e).__name__}: {str(e)[:120]} for member counts {list(lens)}", case); continue
+            want = fp(coll)
+            cur = coll
+            for rnd in (1, 2):
+                for route in ("mem", "file"):
+                    ctx.case([str(case), rnd, route], nontrivial=sum(lens) > 0); ctx.count(f"collection_generated:{route}")
+                    try:
+                        if route == "mem":
+                            back = MazeDatasetCollection.load(cur.serialize())
+                        else:
+                            p = os.path.join(str(ctx.workdir), "cg.zanj")
+                            if os.path.exists(p): os.remove(p)
+                            cur.save(p); back = MazeDatasetCollection.read(p)
+                    except Exception as e:
+                        ctx.violate(f"round trip {rnd} ({route}) of a collection built by MazeDatasetCollection.generate (member counts {list(lens)}, threshold {thr}) "
+                                    f"raised {type(e).__name__}: {str(e)[:160]}", dict(case, round=rnd, route=route)); return
+                    if fp(back) != want or len(back) != sum(lens) or int(back.cfg.n_mazes) != sum(lens) or [len(d) for d in back.maze_datasets] != list(lens):
+                        ctx.violate(f"round trip {rnd} ({route}) of a generated collection (member counts {list(lens)}, threshold {thr}) changed mazes, lengths or the reported count "
+                                    f"(len {len(back)}, n_mazes {back.cfg.n_mazes}, members {[len(d) for d in back.maze_datasets]})", dict(case, round=rnd, route=route)); return
+                cur = back     # second round: what was loaded is saved again
+
+
 def run(ctx):
     warnings.filterwarnings("ignore")
     import common as C
@@ -763,6 +804,7 @@ def run(ctx):
         lens = [len(m["mazes"]) for m in members]
         thr = crng.choice([None, 1, max(lens) + 1, max(1, min(l for l in lens if l > 0) if any(lens) else 1), 2, 0 if k % 8 == 7 else 3])
         results.append(eval_collection(members, thr, collected=(k % 5 == 0), workdir=wd))
+    _collection_routes(ctx)
     for R in results:
         _merge(ctx, R, pairs)
     outs = ctx.driver.run_parallel([p[0] for p in pairs])
@@ -776,6 +818,8 @@ def run(ctx):
 def search(ctx):
     """oracle-only exploration of the real code with the same generators (wider), stops at the first violation"""
     warnings.filterwarnings("ignore")
+    _collection_routes(ctx)
+    if ctx.violations: return
     wd = str(ctx.workdir)
     for idx in range(400 if ctx.quick else 3000):
         rng = random.Random(f"C05:{ctx.seed}:search:{idx}")
@@ -797,6 +841,8 @@ def search(ctx):
 
 
 def replay(ctx, rp):
+    if isinstance(rp.get('case'), dict) and rp['case'].get('collection_route'):
+        _collection_routes(ctx); return
     case = rp.get("case", rp)
     wd = str(ctx.workdir)
     if "members" in case:
